@@ -51,6 +51,21 @@ def _exp_of(ratio, beta_expr, M):
     return None
 
 
+def _clamped(base, per, M):
+    """bound c when some expression applies min / max with a number 0 < c < 0.95 to the Mach number"""
+    exprs = [base] + [v for v in per.values() if v is not None]
+    for e in exprs:
+        if e is None:
+            continue
+        for f in e.atoms(sp.Function):
+            if f.func.__name__ in ("MIN2", "MAX2") and M in f.free_symbols:
+                nums = [a for a in f.args if a.is_number]
+                for c_ in nums:
+                    if 0 < float(c_) < 0.95:
+                        return "%s(%s)" % ("min" if f.func.__name__ == "MIN2" else "max", ", ".join(str(a) for a in f.args))
+    return None
+
+
 def pg1(chk, repo):
     chk.rule("PG1", "per-axis scale factors of the Prandtl-Glauert transformation are the powers of beta = sqrt(1 - M^2) named in the property (points (0,1,1), normals (1,0,0), rotational velocities (2,1,1), forces (-4,-3,-3)); each reduces to 1 at M = 0; the partials carry the same factors", min_decided=10)
     for cname in ("ScaleToPrandtlGlauert", "ScaleFromPrandtlGlauert"):
@@ -85,7 +100,10 @@ def pg1(chk, repo):
                         got.append(0)
                     else:
                         got.append(_exp_of(sp.simplify(e / base), None, M))
-                if any(g is None for g in got):
+                clamp = _clamped(base, per, M)
+                if clamp is not None:
+                    chk.violation("PG1", key, c.where, "the scale factor is computed from a Mach number clamped at %s (inside the admissible range 0 < M < 0.95), not from beta = sqrt(1 - M^2)" % clamp, algebraic=True)
+                elif any(g is None for g in got):
                     chk.undecided("PG1", key, c.where, "scale factor is not a power of beta: %s" % got, algebraic=True)
                 elif tuple(got) == tuple(want):
                     chk.ok("PG1", key, c.where, "beta exponents %s" % (tuple(got),), algebraic=True)
